@@ -19,7 +19,7 @@ def plan(tier):
     c01 = other_plan('C01', tier); c02 = other_plan('C02', tier); c10 = other_plan('C10', 'quick'); c04 = other_plan('C04', 'quick')
     if tier == 'quick':
         # default tuple is C01/C02 themselves; here: every other scalar tuple with the localising obligations and one e2e per cipher
-        pat = re.compile(r'^(sbox:|round:|sched:skinny(128-384|64-192)|e2e:skinny128-256:(enc|dec)|e2e:skinny64-128:(enc|dec)|e2e:r5:(enc|dec):via0|e2e:r8:enc:via1|sbox$)')
+        pat = re.compile(r'^(sbox:|round:|sched:skinny(128-384|64-192)|e2e:skinny128-256:(enc|dec)|e2e:skinny64-128:(enc|dec)|e2e:r5:(enc|dec):via0|e2e:r8:enc:via1|e2e:r5:enc:via2|e2e:r8:dec:via3|sbox$)')
         pat10 = re.compile(r'^accept:skinny(128:plain:(21|47)|64:tweaked:13):ir$')
         pat04 = re.compile(r'^(step:skinny(128-k16:t3|64-k16:t8)|e2e:skinny64-k8:dec:t8)$')
     else:
